@@ -130,7 +130,9 @@ pub fn run_supervised_opt(
             Ev::Done => break,
             Ev::Fatal(m) => {
                 if m.contains("timeout") {
-                    return Err(format!("the supervised call did not finish within the supervisor's time limit ({m})"));
+                    // (not a verdict: the supervised runs are slow by construction; C20 turns a
+                    // reproducible one into its "does not terminate" finding)
+                    return Err(format!("INFRA: the supervised call did not finish within the supervisor's time limit ({m})"));
                 }
                 return Err(format!("INFRA: supervisor: {m}"));
             }
